@@ -283,7 +283,15 @@ func genPlan(r *Rng, focus string) *runPlan {
 					case 1:
 						rp.Meta[k] = []string{}
 					case 2:
-						rp.Meta[k] = []string{"x", "y"}
+						// multi-valued: ordered lists over a small pool — lists that share their first or last
+						// value, permutations of each other, repeated values
+						pool := []string{"t0", "t1", "x"}
+						nv := 2 + r.Intn(2)
+						var vs []string
+						for j := 0; j < nv; j++ {
+							vs = append(vs, pool[r.Intn(len(pool))])
+						}
+						rp.Meta[k] = vs
 					default:
 						rp.Meta[k] = []string{fmt.Sprintf("t%d", r.Intn(3))}
 					}
